@@ -387,6 +387,32 @@ def run_from_config(res, fc, count=True):
         _fail(res, "C08:from_config:filters", f"recorded filters {got.cfg.applied_filters} differ from the requested {filters}", inp, repr(got.cfg.applied_filters)[:300])
     if got.cfg.n_mazes != len(got.mazes):
         _fail(res, "C08:from_config:n_mazes", f"{len(got.mazes)} mazes but cfg.n_mazes={got.cfg.n_mazes}", inp, got.cfg.n_mazes)
+    if not steps:
+        return
+    # the same request through the local cache: the first call generates, filters and saves; the second is served from the file.  Both must
+    # give what applying the filters by hand gives (a cached dataset is already filtered: nothing may be applied to it a second time)
+    import shutil
+    import tempfile
+    from pathlib import Path
+
+    tmp = tempfile.mkdtemp(prefix="c08fc_", dir="/var/tmp")
+    try:
+        for rnd in ("first call (generates and saves)", "second call (cache file present)"):
+            cfg_c = MazeDatasetConfig(applied_filters=[dict(name=f["name"], args=f["args"], kwargs=dict(f["kwargs"])) for f in filters], **base_kw)
+            try:
+                got2 = MazeDataset.from_config(cfg_c, load_local=True, save_local=True, do_download=False, local_base_path=Path(tmp))
+            except Exception as e:  # noqa: BLE001
+                _fail(res, "C08:from_config:cached-raised", f"from_config through the local cache, {rnd}, filters {[f['name'] for f in filters]}: raised {type(e).__name__}: {str(e)[:200]}", inp, traceback.format_exc(limit=3)[-500:])
+                break
+            if [U.maze_key(m) for m in got2.mazes] != [U.maze_key(m) for m in manual.mazes]:
+                pos = {k: i for i, k in reversed(list(enumerate(gen_keys)))}
+                _fail(res, "C08:from_config:cached-mazes", f"from_config through the local cache, {rnd}: kept generated mazes {[pos.get(U.maze_key(m), '?') for m in got2.mazes]}, by hand {[pos.get(U.maze_key(m), '?') for m in manual.mazes]}", inp, None)
+                break
+            if norm_filters(got2.cfg.applied_filters) != norm_filters(filters):
+                _fail(res, "C08:from_config:cached-filters", f"from_config through the local cache, {rnd}: recorded filters {got2.cfg.applied_filters} differ from the requested {filters}", inp, repr(got2.cfg.applied_filters)[:300])
+                break
+    finally:
+        shutil.rmtree(tmp, ignore_errors=True)
 
 
 # ------------------------------------------------------------------------------ scope
@@ -507,7 +533,7 @@ def run(tier, seed):
     )
     res3 = BoundedResult(
         "C08.from-config",
-        rule="MazeDataset.from_config(cfg with applied_filters, load_local=False, save_local=False, do_download=False) vs MazeDataset.generate(cfg without filters) followed by the same "
+        rule="(also: the same request twice through a local cache directory - generated-and-saved, then served from the file) MazeDataset.from_config(cfg with applied_filters, load_local=False, save_local=False, do_download=False) vs MazeDataset.generate(cfg without filters) followed by the same "
         "filters by hand: 5 generators x grid_n {3,4} x 8 filter lists (0..3 entries, args and kwargs styles, incl. metadata filters and an empty result); same mazes in the same order, "
         "recorded filters == requested, n_mazes == len, the given cfg object unchanged",
         exhaustive=False,
